@@ -254,8 +254,8 @@ def programs(ctx, model_ok, tmp):
         body = corpus[n] if n < len(corpus) else gen_prog(rng, rng.choice([1, 2, 3]), counter)
         if n < len(corpus):
             counter[0] = 3
-        if base + counter[0] + 2 >= N:
-            break
+        if base + counter[0] + 6 >= N:
+            break  # (the last five detectors belong to the datasets made before the first block: `existing`, `calib_ds`, `spare`)
         before = snapshot(b, root, [dt, dtc])
         failed = False
         how = "boom" if n < len(corpus) else rng.choice(["boom", "boom", "base", "kbd", "exit", "reput", "reingest"])
